@@ -472,7 +472,7 @@ def Packet.WF : Packet → Bool
       && (c.length > 0 || clean) && (p.length == 0 || u.length > 0)
   | .connack _ code => code ≤ 5
   | .publish m _ id => m.WF && (if m.qos == 0 then id == 0 else id != 0)
-      && 2 + m.topic.length + m.payload.length + 2 ≤ maxVarint
+      && 2 + m.topic.length + m.payload.length + (if m.qos ≠ 0 then 2 else 0) ≤ maxVarint
   | .puback id | .pubrec id | .pubrel id | .pubcomp id | .unsuback id => id != 0
   | .subscribe ss id => id != 0 && !ss.isEmpty && ss.all (fun s => lp16 s.topic && qosOK s.qos)
       && 2 + Packet.subsLen ss ≤ maxVarint
